@@ -104,9 +104,10 @@ class Namespace(pydsdl.Any):
     def get_nested_namespaces(self) -> typing.Iterator["Namespace"]:
         """
         Get an iterator over all the nested namespaces within this namespace.
-        This is a shallow iterator that only provides directly nested namespaces.
+        This is a shallow iterator that only provides directly nested namespaces, in the order of their names
+        (the underlying set has no stable order; anything derived from it would change with PYTHONHASHSEED).
         """
-        return iter(self._nested_namespaces)
+        return iter(sorted(self._nested_namespaces, key=lambda n: n._namespace_components))
 
     def get_nested_types(self) -> typing.ItemsView[pydsdl.CompositeType, pathlib.Path]:
         """
@@ -221,7 +222,7 @@ class Namespace(pydsdl.Any):
                     return namespace._data_type_to_outputs[data_type]
                 except KeyError:
                     pass
-            for nested_namespace in namespace._nested_namespaces:
+            for nested_namespace in namespace.get_nested_namespaces():
                 search_queue.appendleft(nested_namespace)
 
         raise KeyError(data_type)
